@@ -9,6 +9,10 @@ pub type LabelId = u32;
 const I2E_RECORD_SIZE: usize = 16;
 const I2E_RECORDS_PER_PAGE: usize = PAGE_SIZE / I2E_RECORD_SIZE;
 
+/// `I2eRecord::flags` bit: the node was deleted and the deletion has been compacted away from
+/// the runs (which otherwise carry node tombstones).
+pub const I2E_FLAG_TOMBSTONED: u32 = 1;
+
 #[derive(Debug, Clone, Copy, PartialEq, Eq)]
 pub struct I2eRecord {
     pub external_id: ExternalId,
@@ -226,6 +230,22 @@ impl IdMap {
             pager.free_page(PageId::new(old_start.as_u64() + i))?;
         }
         Ok(new_start)
+    }
+
+    /// Records durably that `internal_id` was deleted (bit 0 of the record's flags).
+    pub fn mark_tombstoned(&mut self, pager: &mut Pager, internal_id: InternalNodeId) -> Result<()> {
+        let _vo = vowner!("idmap");
+        let Some(start) = self.i2e_start else {
+            return Ok(());
+        };
+        let Some(record) = self.i2e.get_mut(internal_id as usize) else {
+            return Ok(());
+        };
+        if record.flags & I2E_FLAG_TOMBSTONED != 0 {
+            return Ok(());
+        }
+        record.flags |= I2E_FLAG_TOMBSTONED;
+        write_i2e_record(pager, start, internal_id as u64, *record)
     }
 
     /// Add a label to an existing node.
